@@ -30,7 +30,7 @@ Theorem C04_trained_exactly_once_sdc : forall orc r32 rows,
       o_nonneg (t_obs r) = true /\ o_isnan (sdc_transform orc r32 (t_obs r)) = false /\
       (2 <= length (t_treats r))%nat) ->
    exists tr, train_sdc orc r32 rows = Ok tr).
-Proof. intros orc r32 rows. split; [exact (train_sdc_exactly_once orc r32 rows) | exact (train_sdc_accepts_valid orc r32 rows)]. Qed.
+Proof. exact sdc_exactly_once_full. Qed.
 Print Assumptions C04_trained_exactly_once_sdc.
 
 (* the transform is logit(clip(cast y, lo, hi)), finite, with the bounds read from the source *)
@@ -63,11 +63,7 @@ Theorem C04_single_effect_documented : forall orc r32 fixed_mask guard_neg guard
     (t <> CONTROL_SENTINEL_VALUE /\
      filter (fun r => is_single arity r && single_matches s t r) obs <> [] /\
      v = omean (map t_obs (filter (fun r => is_single arity r && single_matches s t r) obs))).
-Proof.
-  intros orc r32 fm gneg gnan arity rows st H. split.
-  - exact (train_int_ok orc r32 fm gneg gnan arity rows st H).
-  - intros obs. exact (single_effect_map_value arity obs).
-Qed.
+Proof. exact single_effect_documented_full. Qed.
 Print Assumptions C04_single_effect_documented.
 
 (* AS CODED the interaction model trains on the all-control row and on no combination row *)
@@ -103,22 +99,14 @@ Theorem C04_refuses_negative_nan_sdc : forall orc r32 rows r,
   In r rows -> (o_negative (t_obs r) = true \/ t_obs r = ONaN) ->
   (forall st, exists t, sdc_add orc r32 st rows = Err t) /\
   (t_mask r = true -> exists t, train_sdc orc r32 rows = Err t).
-Proof.
-  intros orc r32 rows r Hin Hbad. split.
-  - intros st. exact (sdc_add_refuses orc r32 st rows r Hin Hbad).
-  - intros Hm. exact (train_sdc_refuses orc r32 rows r Hin Hm Hbad).
-Qed.
+Proof. exact refuses_negative_nan_sdc_full. Qed.
 Print Assumptions C04_refuses_negative_nan_sdc.
 
 Theorem C04_refuses_negative_nan_interaction : forall orc r32 fixed_mask guard_nan arity rows r,
   In r rows -> (o_negative (t_obs r) = true \/ t_obs r = ONaN) ->
   (forall st, exists t, int_add orc r32 fixed_mask true guard_nan st arity rows = Err t) /\
   (t_mask r = true -> exists t, train_int orc r32 fixed_mask true guard_nan arity rows = Err t).
-Proof.
-  intros orc r32 fm gnan arity rows r Hin Hbad. split.
-  - intros st. exact (int_add_refuses orc r32 fm true gnan st arity rows r eq_refl Hin Hbad).
-  - intros Hm. exact (train_int_refuses orc r32 fm true gnan arity rows r eq_refl Hin Hm Hbad).
-Qed.
+Proof. exact refuses_negative_nan_int_full. Qed.
 Print Assumptions C04_refuses_negative_nan_interaction.
 
 (* AS CODED: a negative observation is accepted, and becomes a NaN training target *)
@@ -160,11 +148,7 @@ Theorem C04_downstream_frame : forall s1 s2,
   (same_except_masked s1 s2 ->
      forall (A : Type) (f : list drow -> A), f (downstream_input s1) = f (downstream_input s2)) /\
   train_input s1 = view_train_input (downstream_input s1).
-Proof.
-  intros s1 s2. split; [exact (downstream_frame_iff s1 s2)|]. split.
-  - intros H A f. exact (downstream_frame_functions A f s1 s2 H).
-  - exact (train_input_factors s1).
-Qed.
+Proof. exact downstream_frame_full. Qed.
 Print Assumptions C04_downstream_frame.
 
 (* ---- non-vacuity ---- *)
